@@ -189,9 +189,11 @@ def _run_history(item, snap0):
     """item: list of programs; the last one is P and is assembled twice.  One dict per assembly."""
     steps = []
     seq = list(item) + [item[-1]]
+    full = os.environ.get("PYTHONHASHSEED") == HASHSEEDS[0] and len(item) == 1
     for n, lines in enumerate(seq):
-        obs, unchanged, extra = _assemble(lines, listing=(n >= len(seq) - 2))
-        steps.append({"obs": obs, "unchanged": unchanged, "snap": _snap_diff(snap0, _snapshot()), "listing": extra})
+        obs, unchanged, extra = _assemble(lines, listing=True)
+        steps.append({"obs": obs, "unchanged": unchanged, "snap": _snap_diff(snap0, _snapshot()),
+                      "listing": extra if (full and n == 0) else None, "listing_hash": _h(extra) if extra else None})
     return {"steps": steps}
 
 
@@ -399,7 +401,7 @@ def c17_check_fresh(pool, fresh):
             elif o2 != o:
                 probs.append(("assembling the same source twice in a row differs: %s vs %s" % (str(o)[:150], str(o2)[:150]),
                               dict(pay, expected=o, got=o2), True))
-            elif r["steps"][0]["listing"] != r["steps"][1]["listing"] or r["steps"][0]["listing"] != r0["steps"][0]["listing"]:
+            elif r["steps"][0]["listing_hash"] != r["steps"][1]["listing_hash"] or r["steps"][0]["listing_hash"] != r0["steps"][0]["listing_hash"]:
                 probs.append(("listing / symbol table lines differ between runs of the same source", dict(pay), True))
             for n, st in enumerate(r["steps"]):
                 if st["snap"]:
@@ -412,7 +414,7 @@ def c17_check_fresh(pool, fresh):
     return probs, ref
 
 
-def c17_check_history(pool, ref, hist, res, seed):
+def c17_check_history(pool, ref, hist, res, seed, lref=None):
     """hist: list of pool indices (last = P); res: child result.  -> problems"""
     progs = [pool[i] for i in hist]
     pay = {"kind": "history", "history": progs[:-1], "program": progs[-1], "hashseed": seed}
@@ -433,6 +435,8 @@ def c17_check_history(pool, ref, hist, res, seed):
         if o != exp:
             return [("warm-process run after %d other assemblies differs from the fresh-process run: fresh %s, warm %s"
                      % (n, str(exp)[:160], str(o)[:160]), dict(here, expected=exp, got=o), True)]
+        if lref is not None and st["listing_hash"] != lref[seq[n]]:
+            return [("listing / symbol table lines of a warm-process run (after %d other assemblies) differ from the fresh-process run" % n, here, True)]
     return []
 
 
@@ -463,9 +467,9 @@ def c17_check_cli(prog, listing, obs):
 
 def run_c17(tier, rng, rep, info, deadline):
     hist = collections.Counter()
-    n_pool = {"quick": 600, "thorough": 5000}[tier]
-    n_hist = {"quick": 1200, "thorough": 12000}[tier]
-    n_cli = {"quick": 60, "thorough": 400}[tier]
+    n_pool = {"quick": 600, "thorough": 10000}[tier]
+    n_hist = {"quick": 1200, "thorough": 30000}[tier]
+    n_cli = {"quick": 60, "thorough": 600}[tier]
     pool = c17_pool(rng, n_pool)
     # (a) every program first in a fresh interpreter, 5 hash seeds
     jobs = []
@@ -478,6 +482,7 @@ def run_c17(tier, rng, rep, info, deadline):
         for i, r in zip(j[2], res):
             fresh[j[1]][i] = r
     probs, ref = c17_check_fresh(pool, fresh)
+    lref = [None if "crash" in r else r["steps"][0]["listing_hash"] for r in fresh[HASHSEEDS[0]]]
     rep.cov["snapshot_components"] = getattr(_child, "snapshot_keys", 0)
     for i, prog in enumerate(pool):
         rep.count(("fresh", _h(prog)), nontrivial=True)
@@ -520,13 +525,14 @@ def run_c17(tier, rng, rep, info, deadline):
                 hist["history_Q:" + (_cls(ref[q]) if ref[q] else "crash")] += 1
             if hn < 2:
                 rep.sample({"history": [pool[i] for i in h[:-1]], "program": pool[h[-1]], "obs": str(ref[h[-1]])[:200]})
-            for what, pay, fi in c17_check_history(pool, ref, h, r, j[1]):
+            for what, pay, fi in c17_check_history(pool, ref, h, r, j[1], lref):
                 broken.add(_h(pay["program"]))
                 _report(rep, what, pay, fi)
         if rep.full():
             break
     # (d) the real CLI under different hash seeds
-    picks = rng.sample(everything, min(n_cli, len(everything)))
+    as_file = [i for i in everything if all(l.endswith("\n") for l in pool[i][:-1])]   # the list is what readlines() would give
+    picks = rng.sample(as_file, min(n_cli, len(as_file)))
     with concurrent.futures.ThreadPoolExecutor(8) as ex:
         outs = list(ex.map(lambda i: c17_check_cli(pool[i], fresh[HASHSEEDS[0]][i]["steps"][0].get("listing") if ref[i] else None, ref[i]), picks))
     for i, ps in zip(picks, outs):
@@ -594,7 +600,8 @@ def c17_replay(r):
         return probs
     h = list(range(1, len(pool))) + [0]
     res = _child([[pool[i] for i in h]], seed)[0]
-    probs = c17_check_history(pool, ref, h, res, seed)
+    lref = [None if "crash" in x else x["steps"][0]["listing_hash"] for x in fresh[HASHSEEDS[0]]]
+    probs = c17_check_history(pool, ref, h, res, seed, lref)
     if probs:
         return probs
     if "model" in r and ref[0] is not None:
